@@ -48,6 +48,107 @@ class Free:
         return "<%s>" % self.what
 
 
+class Sym(Free):
+    """an opaque library object / input with *structure*: the term says how it was obtained
+    (('ext', dotted) | ('in', name) | ('attr', t, name) | ('call', t, args, kwargs) | ('sub', t, key) |
+    ('slice', t, lo, hi) | ('binop', op, a, b) | ('elem', t, i) ...).  Equal terms are the same value."""
+
+    def __init__(self, term):
+        self.term = term
+        self.what = show_term(term)
+
+    def __eq__(self, o):
+        return isinstance(o, Sym) and o.term == self.term
+
+    def __ne__(self, o):
+        return not self.__eq__(o)
+
+    def __hash__(self):
+        return hash(self.term)
+
+    def __repr__(self):
+        return "<%s>" % self.what
+
+
+def show_term(t, depth=0):
+    if not isinstance(t, tuple) or not t:
+        return repr(t)
+    if depth > 6:
+        return "..."
+    h = t[0]
+    r = lambda x: show_term(x, depth + 1)
+    if h == "ext" or h == "in":
+        return str(t[1])
+    if h == "attr":
+        return "%s.%s" % (r(t[1]), t[2])
+    if h == "call":
+        return "%s(%s)" % (r(t[1]), ", ".join(r(a) for a in t[2]))
+    if h == "sub":
+        return "%s[%s]" % (r(t[1]), r(t[2]))
+    if h == "slice":
+        return "%s[%s:%s]" % (r(t[1]), "" if t[2] is None else t[2], "" if t[3] is None else t[3])
+    if h == "binop":
+        return "(%s %s %s)" % (r(t[2]), t[1], r(t[3]))
+    if h == "elem":
+        return "%s{%s}" % (r(t[1]), t[2])
+    return "%s(%s)" % (h, ", ".join(r(a) for a in t[1:]))
+
+
+def term_of(v):
+    if isinstance(v, Sym):
+        return v.term
+    if isinstance(v, Free):
+        return ("free", id(v))
+    if isinstance(v, Role):
+        return int(v)
+    if isinstance(v, (str, bytes, int, float, bool)) or v is None:
+        return v
+    if isinstance(v, (tuple, list)):
+        return ("tuple",) + tuple(term_of(x) for x in v)
+    if isinstance(v, (set, frozenset)):
+        return ("set",) + tuple(sorted((term_of(x) for x in v), key=repr))
+    if isinstance(v, dict):
+        return ("dict",) + tuple((term_of(k), term_of(x)) for k, x in v.items())
+    if isinstance(v, Obj):
+        return ("obj", v.cls.name if v.cls else v.name, id(v))
+    if isinstance(v, ClassV):
+        return ("class", v.cls.name)
+    if isinstance(v, FuncV):
+        return ("func", v.qualname)
+    if isinstance(v, Bound):
+        return ("bound", v.fv.qualname, term_of(v.self_v))
+    if isinstance(v, Builtin):
+        return ("builtin", v.name)
+    if isinstance(v, ExcClass):
+        return ("exc", v.name)
+    return ("py", type(v).__name__, id(v))
+
+
+def subterms(t):
+    yield t
+    if isinstance(t, tuple):
+        for x in t:
+            yield from subterms(x)
+
+
+def has_subterm(t, sub):
+    return any(x == sub for x in subterms(t))
+
+
+class IterV:
+    def __init__(self, items):
+        self.items = list(items)
+        self.pos = 0
+
+
+class Native:
+    """a model function supplied by the rule: fn(interp, args, kwargs, node)"""
+
+    def __init__(self, name, fn):
+        self.name = name
+        self.fn = fn
+
+
 class PyRaise(Exception):
     def __init__(self, name, node=None, args=()):
         Exception.__init__(self, name)
@@ -186,6 +287,9 @@ def fmt_slots(fmt):
     return order, out
 
 
+import posixpath as _pp
+_PURE_EXT = {"os.path.splitext": _pp.splitext, "os.path.basename": _pp.basename, "os.path.dirname": _pp.dirname, "os.path.join": _pp.join}
+
 SAFE_BUILTINS = {
     "len": len, "int": int, "bool": bool, "str": str, "repr": repr, "hex": hex, "bytes": bytes, "tuple": tuple, "list": list,
     "dict": dict, "set": set, "frozenset": frozenset, "range": range, "min": min, "max": max, "abs": abs, "sum": sum,
@@ -222,6 +326,12 @@ class Interp:
         self._keep = []
         self.modcache = {}
         self.cur_exc = None
+        self.sym_calls = []      # (callee Sym, args, kwargs, node, qualname, result)
+        self.sym_cmps = []       # (opname, term a, term b, result, node, qualname)
+        self.sym_truths = []     # (term, result, node, qualname)
+        self.clsattr = {}        # (id(cls), name) -> value : class attributes are evaluated once
+        self.defaults = {}       # id(function node) -> {param: value} : defaults are evaluated once
+        self.max_depth = 40
 
     # ------------------------------------------------------------------ helpers
     def watch_obj(self, obj, role):
@@ -254,11 +364,34 @@ class Interp:
         t = "`%s`" % " ".join(ast.unparse(node).split())[:70] if node is not None else "?"
         self.trace.append(("choice", t, self.qual(), bool(value)))
 
+    @staticmethod
+    def key_of(v):
+        if isinstance(v, Sym):
+            return ("S", v.term)
+        if isinstance(v, Free):
+            return ("F", id(v))
+        t = term_of(v)
+        try:
+            hash(t)
+        except TypeError:
+            t = repr(t)
+        return ("V", t)
+
     def truth(self, v, node=None):
         if isinstance(v, Free):
+            if isinstance(v, Sym):
+                h = self.hooks.get("symtruth")
+                r = h(self, v, node) if h is not None else NotImplemented
+                if r is NotImplemented:
+                    r = self.choose(("truth", self.key_of(v)), "")
+                    self.note_choice(node, r)
+                self.sym_truths.append((v.term, r, node, self.qual()))
+                return r
             r = self.choose(("truth", id(v)), "")
             self.note_choice(node, r)
             return r
+        if isinstance(v, IterV):
+            return True
         if isinstance(v, Role):
             v.rec.add(0)
             if node is not None:
@@ -326,7 +459,17 @@ class Interp:
         rm = self.repo.by_dotted(n)
         if rm is not None:
             return self.module_global(rm, attr)
-        return ModuleV(n + "." + attr)
+        rm = self.repo.by_dotted(n + "." + attr)
+        if rm is not None:
+            return ModuleV(n + "." + attr)
+        full = n + "." + attr
+        if full in ("os.path", "collections.abc"):
+            return ModuleV(full)
+        if full in ("collections.OrderedDict",):
+            return Builtin("dict", dict)
+        if full in _PURE_EXT:
+            return Builtin(full, _PURE_EXT[full])
+        return Sym(("ext", full))
 
     # ------------------------------------------------------------------ calls
     def call_function(self, fv, args, kwargs, node=None):
@@ -351,14 +494,21 @@ class Interp:
             frame_locals[a.kwarg.arg] = extra
         elif extra:
             raise PyRaise("TypeError", node)
-        mframe = Frame(self, fv.module, {}, "<defaults>")
-        dflt = a.defaults
-        for n, d in zip(names[len(names) - len(dflt):], dflt):
+        dvals = self.defaults.get(id(fn))
+        if dvals is None:
+            mframe = Frame(self, fv.module, dict(fv.closure or {}), "<defaults>")
+            dvals = {}
+            dflt = a.defaults
+            for n, d in zip(names[len(names) - len(dflt):], dflt):
+                dvals[n] = self.eval(d, mframe)
+            for x, d in zip(a.kwonlyargs, a.kw_defaults):
+                if d is not None:
+                    dvals[x.arg] = self.eval(d, mframe)
+            self.defaults[id(fn)] = dvals
+            self._keep.append(fn)
+        for n, v in dvals.items():
             if n not in frame_locals:
-                frame_locals[n] = self.eval(d, mframe)
-        for x, d in zip(a.kwonlyargs, a.kw_defaults):
-            if x.arg not in frame_locals and d is not None:
-                frame_locals[x.arg] = self.eval(d, mframe)
+                frame_locals[n] = v
         for n in names:
             if n not in frame_locals:
                 raise PyRaise("TypeError", node)
@@ -369,8 +519,16 @@ class Interp:
             isgen = _GEN_CACHE[id(fn)] = (fn, any(isinstance(n, (ast.Yield, ast.YieldFrom)) for n in walk_no_nested(fn)))
         if isgen[1]:
             raise NotEvaluable("generator function %s" % fv.qualname)
-        if len(self.stack) > 40:
+        if len(self.stack) > self.max_depth:
+            h = self.hooks.get("depth")
+            if h is not None:
+                h(self, fv, node)
             raise NotEvaluable("call depth")
+        h = self.hooks.get("func")
+        if h is not None:
+            r = h(self, fv, frame_locals, node)
+            if r is not NotImplemented:
+                return r
         self.stack.append(fv.qualname)
         try:
             self.exec_block(fn.body, Frame(self, fv.module, frame_locals, fv.qualname, fv.cls))
@@ -421,16 +579,18 @@ class Interp:
                     return Bound(fv, v)
                 e = v.cls.lookup_attr(attr)
                 if e is not None:
-                    return self.eval(e, Frame(self, v.cls.module, {}, v.cls.name))
+                    return self.class_attr(v.cls, attr, e)
                 raise PyRaise("AttributeError", node)
-            return v.attrs.setdefault(attr, Free("%s.%s" % (v.name, attr)))
+            return v.attrs.setdefault(attr, Sym(("attr", ("in", v.name), attr)))
         if isinstance(v, ClassV):
             fv, kind = self.lookup_method(v.cls, attr)
             if fv is not None:
                 return Bound(fv, v) if kind == "class" else fv
             e = v.cls.lookup_attr(attr)
             if e is not None:
-                return self.eval(e, Frame(self, v.cls.module, {}, v.cls.name))
+                return self.class_attr(v.cls, attr, e)
+            if (id(v.cls), attr) in self.clsattr:
+                return self.clsattr[(id(v.cls), attr)]
             raise PyRaise("AttributeError", node)
         if isinstance(v, ModuleV):
             return self.module_attr(v, attr)
@@ -462,8 +622,12 @@ class Interp:
             if attr == "args":
                 return tuple(v.args)
             raise NotEvaluable("exception attribute %s" % attr)
+        if isinstance(v, Sym):
+            return Sym(("attr", v.term, attr))
         if isinstance(v, Free):
             return Free(v.what + "." + attr)
+        if isinstance(v, IterV):
+            raise NotEvaluable("iterator attribute %s" % attr)
         if isinstance(v, (int, bytes, str, tuple, list, dict, set, frozenset, bytearray)) or v is None:
             if isinstance(v, Role) and attr not in ("bit_length", "to_bytes"):
                 raise NotEvaluable("method %s on a partition value" % attr)
@@ -474,7 +638,19 @@ class Interp:
             return Builtin("%s.%s" % (type(v).__name__, attr), m)
         raise NotEvaluable("attribute %s of %r" % (attr, v))
 
+    def class_attr(self, cls, attr, e):
+        for c in cls.mro():
+            if attr in c.attrs:
+                key = (id(c), attr)
+                if key not in self.clsattr:
+                    self.clsattr[key] = self.eval(e, Frame(self, c.module, {}, c.name))
+                return self.clsattr[key]
+        return self.eval(e, Frame(self, cls.module, {}, cls.name))
+
     def set_attr(self, v, attr, val, node=None):
+        if isinstance(v, ClassV):
+            self.clsattr[(id(v.cls), attr)] = val
+            return
         if isinstance(v, Obj):
             if v.cls is not None:
                 key = (id(v.cls), attr)
@@ -516,6 +692,15 @@ class Interp:
             return f(self, args, kwargs, node)
         if isinstance(f, Builtin):
             return self.call_builtin(f, args, kwargs, node)
+        if isinstance(f, Native):
+            return f.fn(self, list(args), kwargs, node)
+        if isinstance(f, Sym):
+            h = self.hooks.get("symcall")
+            r = h(self, f, list(args), kwargs, node) if h is not None else NotImplemented
+            if r is NotImplemented:
+                r = Sym(("call", f.term, tuple(term_of(a) for a in args), tuple((k, term_of(v)) for k, v in sorted(kwargs.items()))))
+            self.sym_calls.append((f, list(args), dict(kwargs), node, self.qual(), r))
+            return r
         if isinstance(f, Free):
             return Free(f.what + "()")
         raise NotEvaluable("call of %r" % (f,))
@@ -547,6 +732,17 @@ class Interp:
         if n == "isinstance":
             v, t = args
             ts = t if isinstance(t, tuple) else (t,)
+            if isinstance(v, Free) or any(isinstance(c, Free) for c in ts):
+                if not isinstance(v, Sym) and not any(isinstance(c, Sym) for c in ts):
+                    raise NotEvaluable("isinstance of an unknown value")
+                out = False
+                for c in ts:
+                    r = self.choose(("isinstance", self.key_of(v), self.key_of(c)), "")
+                    self.note_choice(node, r)
+                    out = out or r
+                    if r:
+                        break
+                return out
             for c in ts:
                 if isinstance(c, Builtin) and isinstance(c.fn, type):
                     if isinstance(v, c.fn) and not isinstance(v, bool) or (c.fn is bool and isinstance(v, bool)):
@@ -578,8 +774,42 @@ class Interp:
                 return True
             except PyRaise:
                 return False
-        if n in ("iter",):
-            return list(self.iterate(args[0], node))
+        if n == "iter":
+            return IterV(self.iterate(args[0], node))
+        if n == "next":
+            it = args[0]
+            if not isinstance(it, IterV):
+                raise PyRaise("TypeError", node)
+            if it.pos < len(it.items):
+                it.pos += 1
+                return it.items[it.pos - 1]
+            if len(args) > 1:
+                return args[1]
+            raise PyRaise("StopIteration", node)
+        if n in ("map", "filter"):
+            raise NotEvaluable("builtin %s" % n)
+        if n == "int" and len(args) == 1 and isinstance(args[0], Role):
+            return args[0]
+        if n in ("list", "tuple", "set", "sorted", "len", "any", "all", "sum", "min", "max") and args and isinstance(args[0], IterV):
+            args = [self.iterate(args[0], node)] + list(args[1:])
+        self_obj = getattr(f.fn, "__self__", None)
+        if isinstance(self_obj, dict) and n.split(".")[-1] in ("get", "pop", "setdefault", "__contains__", "__getitem__") and args \
+                and (isinstance(args[0], Free) or any(isinstance(k, Free) for k in self_obj)):
+            meth = n.split(".")[-1]
+            hit = self.dict_find(self_obj, args[0], node)
+            if meth == "__contains__":
+                return hit is not None
+            if hit is not None:
+                val = self_obj[hit]
+                if meth == "pop":
+                    del self_obj[hit]
+                return val
+            if meth == "setdefault":
+                self_obj[args[0]] = args[1] if len(args) > 1 else None
+                return self_obj[args[0]]
+            if meth == "__getitem__" or (meth == "pop" and len(args) < 2):
+                raise PyRaise("KeyError", node)
+            return args[1] if len(args) > 1 else None
         if f.fn is None:
             raise NotEvaluable("builtin %s" % n)
         # plain builtins / methods of plain values: only on plain arguments
@@ -588,27 +818,58 @@ class Interp:
             self._plain_arg(v, n)
         if any(isinstance(v, Role) for v in allv) and n.split(".")[-1] not in ("format", "repr", "str", "hex", "int", "join", "__format__"):
             raise NotEvaluable("partition value passed to %s" % n)
-        if any(isinstance(v, Free) for v in allv):
+        if any(isinstance(v, Free) for v in allv) or any(isinstance(v, (list, tuple)) and any(isinstance(x, Free) for x in v) for v in allv):
             if n.split(".")[-1] in ("format", "repr", "str", "hex", "join"):
                 return "<text>"
-            return Free(n + "(...)")
+            if n.split(".")[-1] in ("append", "add", "extend", "insert", "update", "discard", "remove", "__setitem__", "appendleft") or n in ("list", "tuple", "dict", "set", "frozenset", "sorted", "reversed", "bool"):
+                pass    # containers may hold symbolic values
+            else:
+                return Sym(("call", ("ext", n), tuple(term_of(v) for v in args), tuple((k, term_of(v)) for k, v in sorted(kwargs.items()))))
         try:
             return f.fn(*args, **kwargs)
         except Exception as e:   # the builtin's own exception, raised inside the interpreted program
             raise PyRaise(type(e).__name__, node)
 
     def _plain_arg(self, v, n):
+        if isinstance(v, IterV):
+            raise NotEvaluable("iterator passed to %s" % n)
         if isinstance(v, (Obj, ClassV, FuncV, Bound, BufferV, Region, StructV, ModuleV, LoggerV, _RawV, _MemV)):
             if n.split(".")[-1] in ("format", "repr", "str"):
                 return
             if isinstance(v, _MemV) and n == "len":
+                return
+            if n.split(".")[-1] in ("append", "add", "extend", "insert", "discard", "remove", "setdefault", "get", "pop", "update", "index", "count", "__setitem__") and "." in n:
                 return
             raise NotEvaluable("%r passed to %s" % (v, n))
         if isinstance(v, (list, tuple)):
             for x in v:
                 self._plain_arg(x, n)
 
+    def dict_find(self, d, k, node):
+        """the key of d that equals k (symbolic keys are compared through choice points)"""
+        for key in list(d.keys()):
+            if self.compare(ast.Eq(), k, key, node):
+                return key
+        return None
+
     def iterate(self, v, node=None):
+        if isinstance(v, IterV):
+            rest = v.items[v.pos:]
+            v.pos = len(v.items)
+            return rest
+        if isinstance(v, Sym):
+            h = self.hooks.get("symiter")
+            r = h(self, v, node) if h is not None else NotImplemented
+            if r is not NotImplemented:
+                return list(r)
+            out = []
+            for i in range(2):
+                more = self.choose(("iter", v.term, i), "")
+                self.trace.append(("choice", "`%s` has %s element" % (v.what[:50], "a first" if i == 0 else "a second"), self.qual(), more))
+                if not more:
+                    break
+                out.append(Sym(("elem", v.term, i)))
+            return out
         if isinstance(v, (list, tuple, str, bytes, range, set, frozenset)):
             return list(v)
         if isinstance(v, dict):
@@ -856,6 +1117,8 @@ class Interp:
         v = self.eval(e.operand, f)
         if isinstance(e.op, ast.Not):
             return not self.truth(v, e.operand)
+        if isinstance(v, Sym):
+            return Sym(("unop", type(e.op).__name__, v.term))
         if isinstance(v, Free):
             return Free("op")
         if isinstance(v, Role):
@@ -876,6 +1139,8 @@ class Interp:
                 if isinstance(op, ast.BitAnd) and isinstance(y, int) and not isinstance(y, (Role, bool)) and y == 0xFFFFFFFF and 0 <= int(x) <= y:
                     return x
                 raise NotEvaluable("arithmetic on a partition value: %s" % ast.unparse(node))
+        if isinstance(a, Sym) or isinstance(b, Sym):
+            return Sym(("binop", type(op).__name__, term_of(a), term_of(b)))
         if isinstance(a, Free) or isinstance(b, Free):
             return Free("expr")
         if isinstance(a, Region) or isinstance(b, Region):
@@ -906,13 +1171,16 @@ class Interp:
 
     def compare(self, op, a, b, node):
         if isinstance(op, (ast.In, ast.NotIn)):
-            if isinstance(b, Free) or (isinstance(a, Free) and not isinstance(b, (str, bytes))):
-                res = self.choose(("in", id(a) if isinstance(a, Free) else repr(a), id(b) if isinstance(b, Free) else repr(b)), "")
+            if isinstance(b, Free) or (isinstance(a, Free) and isinstance(b, (str, bytes))):
+                res = self.choose(("in", self.key_of(a), self.key_of(b)), "")
                 res = res if isinstance(op, ast.In) else not res
                 self.note_choice(node, res)
+                self.sym_cmps.append((type(op).__name__, term_of(a), term_of(b), res, node, self.qual()))
                 return res
+            if isinstance(b, IterV):
+                b = self.iterate(b, node)
             if isinstance(b, (list, tuple, set, frozenset, dict)):
-                res = any(self.compare(ast.Eq(), a, x, node) for x in (b.keys() if isinstance(b, dict) else b))
+                res = any(self.compare(ast.Eq(), a, x, node) for x in list(b.keys() if isinstance(b, dict) else b))
             elif isinstance(b, (str, bytes)) and isinstance(a, (str, bytes, int)) and not isinstance(a, Role):
                 try:
                     res = a in b
@@ -930,12 +1198,26 @@ class Interp:
             else:
                 res = a is b if not (isinstance(a, (int, str, bytes)) and isinstance(b, (int, str, bytes))) else (type(a) is type(b) and a == b)
             return res if isinstance(op, ast.Is) else not res
+        if isinstance(op, (ast.Eq, ast.NotEq)) and isinstance(a, (tuple, list)) and isinstance(b, (tuple, list)) and type(a) is type(b) \
+                and (any(isinstance(x, Free) for x in a) or any(isinstance(x, Free) for x in b)):
+            eq = len(a) == len(b) and all(self.compare(ast.Eq(), x, y, node) for x, y in zip(a, b))
+            return eq if isinstance(op, ast.Eq) else not eq
         if isinstance(a, Free) or isinstance(b, Free):
-            key = (type(op).__name__, id(a) if isinstance(a, Free) else repr(a), id(b) if isinstance(b, Free) else repr(b))
-            # the negated form must be consistent with the positive one
-            neg = {"NotEq": "Eq", "GtE": "Lt", "LtE": "Gt"}.get(key[0])
-            res = (not self.choose((neg,) + key[1:], "")) if neg else self.choose(key, "")
-            self.note_choice(node, res)
+            opn = type(op).__name__
+            if opn in ("Eq", "NotEq") and isinstance(a, Sym) and isinstance(b, Sym) and a.term == b.term:
+                return opn == "Eq"
+            h = self.hooks.get("symcompare")
+            res = h(self, opn, a, b, node) if h is not None else NotImplemented
+            if res is NotImplemented:
+                ka, kb = self.key_of(a), self.key_of(b)
+                if opn in ("Eq", "NotEq") and repr(kb) < repr(ka):
+                    ka, kb = kb, ka          # equality is symmetric
+                key = (opn, ka, kb)
+                # the negated form must be consistent with the positive one
+                neg = {"NotEq": "Eq", "GtE": "Lt", "LtE": "Gt"}.get(opn)
+                res = (not self.choose((neg,) + key[1:], "")) if neg else self.choose(key, "")
+                self.note_choice(node, res)
+            self.sym_cmps.append((opn, term_of(a), term_of(b), res, node, self.qual()))
             return res
         for x, y in ((a, b), (b, a)):
             if isinstance(x, Role):
@@ -967,7 +1249,7 @@ class Interp:
         s = e.slice
         if isinstance(s, ast.Slice):
             k = slice(*(None if p is None else self.eval(p, f) for p in (s.lower, s.upper, s.step)))
-            if any(isinstance(p, (Free, Role)) for p in (k.start, k.stop, k.step)):
+            if any(isinstance(p, (Free, Role)) for p in (k.start, k.stop, k.step)) or (k.step is not None and isinstance(v, Sym)):
                 raise NotEvaluable("slice bounds in %s" % ast.unparse(e))
         else:
             k = self.eval(s, f)
@@ -976,10 +1258,21 @@ class Interp:
             if fv is None:
                 raise PyRaise("TypeError", e)
             return self.call_function(fv, [v, k], {}, e)
+        if isinstance(v, Sym):
+            if isinstance(k, slice):
+                return Sym(("slice", v.term, term_of(k.start), term_of(k.stop)))
+            return Sym(("sub", v.term, term_of(k)))
         if isinstance(v, Free):
             return Free(v.what + "[]")
         if isinstance(v, Region):
             raise NotEvaluable("indexing raw stream bytes: %s" % ast.unparse(e))
+        if isinstance(v, dict) and (isinstance(k, Free) or any(isinstance(x, Free) for x in v)):
+            hit = self.dict_find(v, k, e)
+            if hit is None:
+                raise PyRaise("KeyError", e)
+            return v[hit]
+        if isinstance(v, IterV):
+            raise PyRaise("TypeError", e)
         if isinstance(k, (Free, Role)):
             raise NotEvaluable("index in %s" % ast.unparse(e))
         try:
@@ -1026,7 +1319,8 @@ class Interp:
         self._comp(e, f2, e.generators, lambda fr: out.append(self.eval(e.elt, fr)))
         return out
 
-    x_GeneratorExp = x_ListComp
+    def x_GeneratorExp(self, e, f):
+        return IterV(self.x_ListComp(e, f))
 
     def x_SetComp(self, e, f):
         return set(self.x_ListComp(e, f))
@@ -1117,4 +1411,19 @@ def explore(make_interp, run, max_runs=64):
         taken = it.choices
         for i in range(len(prefix), len(taken)):
             stack.append(taken[:i] + [not taken[i]])
+    return out
+
+
+def all_paths(run, max_runs=512):
+    """run(decisions) -> (interp, result) for every sequence of choice outcomes (depth first)"""
+    out = []
+    stack = [[]]
+    while stack:
+        prefix = stack.pop()
+        it, res = run(prefix)
+        out.append((it, res))
+        if len(out) > max_runs:
+            raise NotEvaluable("more than %d paths over unconstrained values" % max_runs)
+        for i in range(len(prefix), len(it.choices)):
+            stack.append(it.choices[:i] + [not it.choices[i]])
     return out
